@@ -144,6 +144,16 @@ func checkGrammar(c *GramCase) (err error) {
 		if _, e4 := f.Delete("GET", p); !errors.Is(e4, fox.ErrRouteNotFound) {
 			return fmt.Errorf("pattern %q: Delete of a valid but unregistered pattern returned %v", p, e4)
 		}
+		// the other registration entry point: the route value this router built for the pattern
+		if e5 := f.HandleRoute("GET", rte); e5 != nil {
+			return fmt.Errorf("pattern %q (limits params=%d key=%d): grammar says valid, NewRoute accepted it, HandleRoute on the same empty router returned err=%v", p, c.MaxParams, c.MaxKey, e5)
+		}
+		if e6 := f.UpdateRoute("GET", rte); e6 != nil {
+			return fmt.Errorf("pattern %q (limits params=%d key=%d): UpdateRoute with the route just registered returned err=%v", p, c.MaxParams, c.MaxKey, e6)
+		}
+		if _, e7 := f.Delete("GET", p); e7 != nil {
+			return fmt.Errorf("pattern %q: Delete of the route registered through HandleRoute failed: %v", p, e7)
+		}
 	}
 	return nil
 }
